@@ -148,6 +148,13 @@ def havoc(ip, node, frame, spec):
             cur.dom, cur.val, cur.size = n.dom, n.val, n.size
         elif isinstance(cur, (PyList, PyDict, PySet)):
             k = spec.havoc_kinds.get(name)
+            if k is None and isinstance(cur, PyList) and len(cur.items) == 0:
+                # a list that is empty at the loop head and only grows inside a loop the sidecar cuts (a local the sidecar
+                # does not know): inside / after an arbitrary iteration it is SOME list of arbitrary values
+                bk = Kind('box')
+                base = SymSeq(z3.K(IntSort, I._default_of(bk.sort())), z3.IntVal(0), bk)
+                frame.locals[name] = fresh_like(ip, base, name)
+                continue
             if k is None:
                 raise Unsupported('local container %s of concrete shape is mutated in a loop cut by an invariant: '
                                   'declare havoc_kinds[%r]' % (name, name))
